@@ -305,10 +305,87 @@ pub fn record_miri(out: &mut Out, seed: u64, part: &str) {
     }
 }
 
+/// systematic length-field edits of small valid packets: EVERY declared remaining length from 0 to body + 3
+/// over the unchanged bytes, and every inner 2-byte length prefix / property length moved by -1, +1 and to 0
+fn length_edit_inputs<F: GenFam>(rng: &mut Rng, npackets: usize, f: &mut dyn FnMut(&[u8])) {
+    let mut b = Budget { big: 0, huge: 0 };
+    let types = F::types();
+    let mut done = 0;
+    let mut i = 0;
+    while done < npackets && i < npackets * 20 {
+        i += 1;
+        let p = F::gen(rng, &mut b, types[i % types.len()]);
+        let e = match enc::<F>(&p).1 {
+            Some(e) if e.len() <= 70 && e.len() >= 3 => e,
+            _ => continue,
+        };
+        done += 1;
+        let body = &e[2..];
+        for k in 0..=(body.len() + 3) {
+            let mut v = vec![e[0]];
+            v.extend(crate::topic::varint(k));
+            v.extend_from_slice(body);
+            f(&v);
+        }
+        if let Some(fr) = crate::tokens::tokenize(F::NAME, &e) {
+            for (idx, seg) in fr.body.iter().enumerate() {
+                match seg {
+                    crate::tokens::Seg::Field { content, .. } => {
+                        // the field's own length prefix edited, bytes unchanged
+                        let mut raw = Vec::new();
+                        for (j, s2) in fr.body.iter().enumerate() {
+                            let mut one = crate::tokens::Frame { fam: fr.fam, typ: fr.typ.clone(), ctl: fr.ctl, body: vec![s2.clone()], rl_override: None }.bytes();
+                            let seg_bytes = one.split_off(2);
+                            if j == idx {
+                                for d in [-1i64, 1, -(content.len() as i64)] {
+                                    let nl = (content.len() as i64 + d).max(0) as usize;
+                                    let mut alt = raw.clone();
+                                    alt.push((nl >> 8) as u8);
+                                    alt.push((nl & 255) as u8);
+                                    alt.extend_from_slice(content);
+                                    for s3 in fr.body.iter().skip(idx + 1) {
+                                        let mut o = crate::tokens::Frame { fam: fr.fam, typ: fr.typ.clone(), ctl: fr.ctl, body: vec![s3.clone()], rl_override: None }.bytes();
+                                        alt.extend(o.split_off(2));
+                                    }
+                                    f(&crate::topic::frame(fr.ctl, &alt));
+                                }
+                            }
+                            raw.extend(seg_bytes);
+                        }
+                    }
+                    crate::tokens::Seg::Props { .. } => {
+                        for d in [-1i64, 1, 2] {
+                            let mut g = fr.clone();
+                            let mut inner = Vec::new();
+                            if let crate::tokens::Seg::Props { items, .. } = seg {
+                                for it in items {
+                                    for s2 in it {
+                                        let mut o = crate::tokens::Frame { fam: fr.fam, typ: fr.typ.clone(), ctl: fr.ctl, body: vec![s2.clone()], rl_override: None }.bytes();
+                                        inner.extend(o.split_off(2));
+                                    }
+                                }
+                            }
+                            let nl = (inner.len() as i64 + d).max(0) as usize;
+                            if let crate::tokens::Seg::Props { len_override, .. } = &mut g.body[idx] {
+                                *len_override = Some(crate::topic::varint(nl));
+                            }
+                            f(&g.bytes());
+                        }
+                    }
+                    _ => {}
+                }
+            }
+        }
+    }
+}
+
 pub fn record_dec3(out: &mut Out, tier: &str, seed: u64) {
     let n = if tier == "thorough" { 150000 } else { 5000 };
     let mut rng = Rng::new(seed ^ 0xC06);
     let mut b = Budget { big: 60, huge: 0 };
+    let npk = if tier == "thorough" { 1500 } else { 45 };
+    length_edit_inputs::<V3>(&mut rng, npk, &mut |v| dec3_event::<V3>(out, v));
+    length_edit_inputs::<V5>(&mut rng, 2 * npk, &mut |v| dec3_event::<V5>(out, v));
     for i in 0..n {
         let v = input_for::<V3>(&mut rng, &mut b, i);
         dec3_event::<V3>(out, &v);
